@@ -34,8 +34,10 @@ fn spec_next_version(cv: i32, resolving: bool, ov: i32) -> i32 {
     else if resolving { sat_inc(if ov == MARK { cv } else { ov }) }
     else if ov == MARK { ov }
     else if cv == -1 { sat_inc(ov) }
-    else { sat_inc(cv) }
+    else { live_version(sat_inc(cv)) }
 }
+/// a live key is never stored with -1, the on-disk deletion marker
+fn live_version(x: i32) -> i32 { if x == -1 { 0 } else { x } }
 fn upd(s: ValueStatus) -> ValueStatus { if s == ValueStatus::New { ValueStatus::New } else { ValueStatus::Updated } }
 
 const VERSIONS: [i32; 10] = [-3, -2, -1, 0, 1, 4, 5, 6, i32::MAX - 1, i32::MAX];
@@ -115,11 +117,12 @@ fn scenario_store(sc: &str) -> Result<Violations, String> {
             if is_ve { chk(&mut v, "C01.refused-unchanged", maps_equal(&before, &after)); chk(&mut v, "C03.no-emit-refused", msgs.is_empty()); }
             match &old {
                 None => { chk(&mut v, "C02.cas-absent", is_set);
-                          if is_set { chk(&mut v, "C02.absent-version", after["k"].version == sat_inc(cv)); } }
+                          if is_set { chk(&mut v, "C02.absent-version", after["k"].version == live_version(sat_inc(cv))); } }
                 Some(o) => {
                     let refused = spec_next_version(cv, resolving, o.version) <= o.version && !is_marker(cv, resolving);
                     chk(&mut v, "C02.cas-rule", is_ve == refused);
-                    if !resolving && o.version != MARK && cv < i32::MAX && o.version < i32::MAX {
+                    // (a live key never carries -1, the on-disk deletion marker - C06.live-version-never-deleted-marker - so that state is not judged)
+                    if !resolving && o.version != MARK && o.version != -1 && cv < i32::MAX && o.version < i32::MAX {
                         chk(&mut v, "C02.cas-statement", is_set == (cv == -1 || cv >= o.version));
                     }
                     if is_set && !is_marker(cv, resolving) { chk(&mut v, "C02.grow", after["k"].version > o.version); }
@@ -240,7 +243,7 @@ fn scenario_strategy(sc: &str) -> Result<Violations, String> {
             chk(&mut v, "C19.notify-iff-changed", replaced == !msgs.is_empty());
         }
         ConsensuStrategy::None => {
-            if ov != MARK && cv < i32::MAX && ov < i32::MAX {
+            if ov != MARK && ov != -1 && cv < i32::MAX && ov < i32::MAX {
                 chk(&mut v, "C02.set-cas", is_set == (cv == -1 || cv >= ov));
                 chk(&mut v, "C02.cas-statement", is_set == (cv == -1 || cv >= ov));
             }
@@ -799,6 +802,8 @@ fn scenario_snapshot(sc: &str) -> Result<Violations, String> {
             match b[0] {
                 b's' => { let cmd = format!("set k{} {}", b[1] as char, vals[(b[2] - b'0') as usize]); run_cmd(&w, &mut c, &mut rx, &cmd); None }
                 b'r' => { run_cmd(&w, &mut c, &mut rx, &format!("remove k{}", b[1] as char)); None }
+                // a versioned write presenting version -(2 + idx): probes whether a client can make a live key carry version -1, the on-disk deletion marker
+                b'v' => { run_cmd(&w, &mut c, &mut rx, &format!("set-safe k{} -{} vv", b[1] as char, 2 + (b[2] - b'0'))); None }
                 b'i' => { run_cmd(&w, &mut c, &mut rx, &format!("increment k{} 1", b[1] as char)); None }
                 b'S' | b'R' => {
                     let before = live(&dbs);
@@ -822,6 +827,7 @@ fn scenario_snapshot(sc: &str) -> Result<Violations, String> {
             Ok(Some((state, flag, is_load))) => {
                 if !is_load { chk(&mut v, "C06.snapshot-keeps-memory", flag); snap = Some(state); }
                 else if let Some(sn) = &snap {
+                    if std::env::var("VERIF_TRACE").is_ok() { eprintln!("snapshotted: {:?}\nreloaded:    {:?}", sn.iter().map(|(k, v, ver)| (k.clone(), v.chars().take(12).collect::<String>(), *ver)).collect::<Vec<_>>(), state.iter().map(|(k, v, ver)| (k.clone(), v.chars().take(12).collect::<String>(), *ver)).collect::<Vec<_>>()); }
                     // ---- restart after the last completed snapshot: exactly the snapshotted state (live keys, values byte for byte, versions), same id and strategy
                     chk(&mut v, "C06.loader-decodes-image", &state == sn);
                     chk(&mut v, "C06.write-plan", &state == sn);
@@ -845,7 +851,7 @@ fn all_snapshot_scenarios() -> Vec<String> {
         let mut p = 0; loop { if p == len { break; } idx[p] += 1; if idx[p] < ops.len() { break; } idx[p] = 0; p += 1; }
         if p == len { break; }
     }
-    for h in ["sa0.S.sb0.S.ra.S.L.sb2.S.L", "sa0.S.sb0.S.ra.S.L.rb.S.L", "sa0.S.sb5.S.ra.S.L.ib.S.L", "sb0.S.sa0.S.rb.S.L.sa2.S.L.R.L", "sa0.S.sa2.S.L.ra.S.L.sa3.R.L", "sa5.sb4.S.ra.S.sa0.S.L.ia.R.L.rb.S.L", "sa3.ia.ia.S.L.ia.S.L", "sa0.S.ra.R.sa1.S.L", "sa0.sb0.R.ra.S.sb2.S.L.R.L",
+    for h in ["va0.S.L", "va0.R.L", "va1.S.L", "va1.sa0.S.L", "va1.ia.S.L", "va1.ia.ia.R.L", "sa0.va0.S.L", "sa0.S.va0.S.L", "va2.sa0.sa0.R.L", "sa0.S.sb0.S.ra.S.L.sb2.S.L", "sa0.S.sb0.S.ra.S.L.rb.S.L", "sa0.S.sb5.S.ra.S.L.ib.S.L", "sb0.S.sa0.S.rb.S.L.sa2.S.L.R.L", "sa0.S.sa2.S.L.ra.S.L.sa3.R.L", "sa5.sb4.S.ra.S.sa0.S.L.ia.R.L.rb.S.L", "sa3.ia.ia.S.L.ia.S.L", "sa0.S.ra.R.sa1.S.L", "sa0.sb0.R.ra.S.sb2.S.L.R.L",
               "sa0.ra.S.L", "sa0.S.ra.sa1.S.L", "sa1.S.L.sa1.S.L", "sa0.S.L.ra.S.L.L"] { out.push(h.to_string()); }
     out.sort(); out.dedup();
     out
